@@ -197,7 +197,8 @@ def r10_5(ctx: Ctx) -> None:
 
 def r10_6(ctx: Ctx) -> None:
     f = shared.szf(ctx, "getinfo")
-    strip = [c for c in q.calls(f) if attr_tail(c) == "remove_trailing_slash"]
+    # the QUERY is stripped (the member side is R10.11's business)
+    strip = [c for c in q.calls(f) if attr_tail(c) == "remove_trailing_slash" and len(f.params) > 1 and any(isinstance(a, ast.Name) and a.id == f.params[1] for a in c.args)]
     raises = [n for n in walk(f.node) if isinstance(n, ast.Raise) and isinstance(n.exc, ast.Call) and dotted(n.exc.func) == "KeyError"]
     ok = bool(strip) and bool(raises)
     for r in raises:
